@@ -68,8 +68,16 @@ def gen_hist_case(rng, max_n=6, max_ops=7):
                 via = "exec"
             # the run repeated on the same executor object uses OTHER arguments: a stale result is then visible
             ops.append(dict(kind="fail", args=args, node=rng.randrange(n), via=via, again=True, again_args=[a + 1 for a in args]))
-        else:
+        elif r < 0.94:
             ops.append(dict(kind="deepcopy"))
+        elif r < 0.97:
+            # a configuration reload in the middle of the history (changes schedules, never selections or values)
+            ops.append(dict(kind="config", config={"nodes": {"n%d" % rng.randrange(n): {"priority": rng.randint(-3, 5), "is_sequential": rng.random() < 0.5}}, "max_concurrency": rng.randint(1, 3)}))
+        else:
+            # a DAG composed from the instance, and run: must leave the instance alone
+            outs = sorted(rng.sample(range(n), rng.randint(1, min(2, n))))
+            cand = [i for i in range(n) if i not in outs]
+            ops.append(dict(kind="compose", ins=sorted(rng.sample(cand, rng.randint(0, min(1, len(cand))))), outs=outs))
     case["ops"] = ops
     case["final_args"] = [rng.randrange(1000) for _ in range(rng.randint(sum(1 for p in case["params"] if p["default"] is None), nparams))]
     case["maxc"] = rng.randint(1, 3)
@@ -172,6 +180,25 @@ def run_history(case, tmpdir):
             o["status"] = "ok"
             o["executed"] = []
             o["new_instance"] = id(cur)
+            obs.append(o)
+            continue
+        if k in ("config", "compose"):
+            o["executed"] = []
+            try:
+                if k == "config":
+                    cur.config_from_dict(json.loads(json.dumps(op["config"])))
+                    o["status"] = "ok"
+                else:
+                    cd = cur.compose("cmp%d" % oi, ["n%d" % i for i in op["ins"]], ["n%d" % i for i in op["outs"]])
+                    stc, exc_, _, _ = run_op(cd, lambda: cd(*[("in", i) for i in op["ins"]]))
+                    o["status"] = "ok"
+                    o["composed_status"] = stc[0]
+            except ValueError as e:
+                o["status"] = "ValueError"
+                o["error"] = str(e)[:150]
+            except BaseException as e:  # noqa: BLE001
+                o["status"] = "other-raise"
+                o["error"] = "%s: %s" % (type(e).__name__, str(e)[:150])
             obs.append(o)
             continue
         tawazi.cfg.RUN_DEBUG_NODES = bool(op.get("run_debug"))
@@ -283,7 +310,7 @@ def model_term(case, d, obs):
         op = o["op"]
         k = op["kind"]
         ok = "true" if o["status"] == "ok" else "false"
-        if k == "deepcopy":
+        if k in ("deepcopy", "config", "compose"):
             continue
         if k == "call":
             ops.append("OCall %d %s %s" % (len(op["args"]), "true" if op["run_debug"] else "false", ok))
@@ -376,6 +403,9 @@ def run(pid, tier, seed, res, only=None):
                         seen[inst].add(x)
             if o.get("dup"):
                 res.hit("C03", "monitor", "node(s) %s entered more than once in one operation" % o["dup"], dict(base, kind="monitor", op_index=oi))
+        for oi, o in enumerate(obs):
+            if o["op"]["kind"] in ("config", "compose") and o["status"] == "other-raise":
+                res.hit("C15", "monitor", "operation %d (%s) raised %s" % (oi, o["op"]["kind"], o.get("error")), dict(base, kind="monitor", op_index=oi))
         for a_, b_ in final.get("shared", []):
             res.hit("C11", "monitor", "operations on a deep copy changed the setup results of the original (%s -> %s)" % (a_, b_), dict(base, kind="monitor"))
         # C15: the final call equals the call on a fresh instance
